@@ -136,8 +136,13 @@ def boolsToJson (bs : List Bool) : Json := Json.arr (bs.map toJson).toArray
 /-- kind = "window": the subset masks the property prescribes (and the modelled mechanism of
     the named front end) for a time axis and a list of windows. -/
 def handleWindow (j : Json) : D Json := do
-  let ts ← field j "t" >>= asList asInt
+  let tso ← field j "t" >>= asList (asOpt asInt)
   let ws ← field j "windows" >>= asList asWindow
+  if tso.any Option.isNone then
+    -- a time column with NaT rows: the window rows and the comparison mechanism on such a column
+    return Json.mkObj [("spec", Json.arr (ws.map fun w => boolsToJson (specMaskOpt w tso)).toArray),
+                       ("mechanism", Json.arr (ws.map fun w => boolsToJson (numpyMaskOpt w tso)).toArray)]
+  let ts := tso.filterMap id
   let fe := (optField j "frontend").bind (fun x => x.getStr?.toOption) |>.getD "numpy"
   let mech (w : Window) : List Bool :=
     match fe with
@@ -365,7 +370,7 @@ def asFault (s : String) : D (Option FaultKind) :=
   match s with
   | "none" => pure none
   | "unknown_module" => pure (some .unknownModule) | "unknown_test" => pure (some .unknownTest)
-  | "bad_params" => pure (some .badParams) | "missing_input" => pure (some .missingInput)
+  | "bad_params" => pure (some .badParams) | "dup_bad_params" => pure (some .badParams) | "missing_input" => pure (some .missingInput)
   | "absent_stream" => pure (some .absentStream) | "raises" => pure (some .raises)
   | _ => throw s!"bad fault {s}"
 
